@@ -52,6 +52,10 @@ const PLACEMENTS = {
   'class-method-body': (R) => `let ${R} = 'U1';\nfunction f(act) {\n  class K { m() { return ${R}; } get g() { return ${R}; } }\n  const v = $.p(act, 1) + $.p(act, 2);\n  $.u('m', new K().m() + new K().g);\n  return v;\n}`,
   'class-heritage': (R) => `let ${R} = class { h() { return 'U1'; } };\nfunction f(act) {\n  const v = $.p(act, 1) + $.p(act, 2);\n  class K extends ${R} {}\n  $.u('h', new K().h());\n  return v;\n}`,
   'object-method-and-getter': (R) => `let ${R} = 'U1';\nfunction f(act) {\n  const o = { m() { return ${R}; }, get g() { return ${R}; }, [${R}]: 1 };\n  const v = $.p(act, 1) + $.p(act, 2);\n  $.u('o', o.m() + o.g + Object.keys(o).join());\n  return v;\n}`,
+  // the mention sits in a deeply nested block / function (anything depth-bounded in the traversal)
+  ...Object.fromEntries([8, 63, 64, 65, 100].map(d => [`deep-block-${d}`, (R) => `let ${R} = 'U1';\nfunction f(act) {\n  const v = $.p(act, 1) + $.p(act, 2);\n  ${'{ '.repeat(d)}$.u('read', ${R});${' }'.repeat(d)}\n  return v;\n}`])),
+  ...Object.fromEntries([8, 64, 70].map(d => [`deep-function-${d}`, (R) => `let ${R} = 'U1';\nfunction f(act) {\n  const v = $.p(act, 1) + $.p(act, 2);\n  ${'(() => { '.repeat(d)}$.u('read', ${R});${' })();'.repeat(d)}\n  return v;\n}`])),
+  ...Object.fromEntries([64, 70].map(d => [`deep-block-writes-${d}`, (R) => `let ${R} = 'U1';\nconst rd = () => ${R};\nfunction f(act) {\n  const v = $.p(act, 1) + (${'{ '.repeat(0)}$.n(() => { ${'{ '.repeat(d)}${R} = 'U2';${' }'.repeat(d)} return 'w'; })()) + $.p(act, 2);\n  return v;\n}\nconst after = () => $.u('outer', rd());`])),
   'else-if-unbraced': (R) => `let ${R} = 'U1';\nfunction f(act) {\n  const v = $.p(act, 1) + $.p(act, 2);\n  if ($.u('c', 0)) { v.length; } else if ($.u('d', 1)) ${R} = 'U3';\n  const w = $.p(act, 3) + $.p(act, 4);\n  return v + w;\n}\nconst rd = () => ${R};\nconst after = () => $.u('outer', rd());`
 }
 
